@@ -60,4 +60,17 @@ CLAIMS = {
              "interleavings are not decided.",
         technique="who-may-call/escape analysis; def-use provenance across call sites; feasible-path guard analysis; dead-guard interval check; unit inference",
         ref="4/C08"),
+    "C13": dict(
+        text="Static analysis of structural necessary conditions of delays and periodic timers: every delay.add/reset/"
+             "add_if_doesnt_exist call in the repository whose duration has a known dimension passes milliseconds and "
+             "DelayManager.add schedules ms/1000 seconds; every path that takes a record out of the delay table "
+             "cancels its scheduled call (add-replace, remove, clear, reset); a firing delay is deleted before its "
+             "callback runs and the queue is drained after; the delay record keeps the callback bound to its kwargs "
+             "and run_now saves, cancels, then runs exactly that; PeriodicTask reschedules with call_at on the fixed "
+             "grid (clock read only at creation, grid advanced before the callback, cancel tested before callback and "
+             "before rescheduling); the Timer device's start/stop/pause keep one periodic task, cancel a pending timed "
+             "pause on stop/start, count only while running, complete exactly at the end value; an accepted Mode.stop "
+             "clears the mode's delays. Firing instants and check() truthfulness over histories are not decided.",
+        technique="unit inference over all delay call sites; CFG must-pass/dominance pairing; def-use of the stored callback record",
+        ref="4/C13"),
 }
